@@ -300,7 +300,14 @@ def gen_fault(rng) -> dict:
 
 
 def setup(sim: Sim) -> None:
-    pass
+    if sim.real and "enumerated" in sim.cfg:
+        sim.probe("enumerated_short_history_runs")
+
+
+def evidence_extra(agg) -> dict:
+    n = agg["stats"].get("probes", {}).get("enumerated_short_history_runs", 0)
+    return {"bounded_exhaustive_stratum": {"histories_executed": n, "histories_in_space": ENUM_TOTAL, "shape_variants": 4,
+                                           "note": "run index 3j executes history j mod %d on shape variant (j div %d) mod 4; a batch of >= %d runs covers every history on one shape" % (ENUM_TOTAL, ENUM_TOTAL, 3 * ENUM_TOTAL)}}
 
 
 def nontrivial(result: dict) -> bool:
